@@ -275,3 +275,92 @@ def gen_tap(R, cfg=None):
     epoch = R.range(978307200, 2082758400) * 1000000 + R.range(0, 999999)
     tap = {"epoch_us": epoch, "res_us": 1}
     return tap
+
+
+def gen_http_conn(R, cid, used, port=443, v6=False, **epkw):
+    c, s = gen_endpoints(R.fork("ep"), v6, used, server_port=port, **epkw)
+    msgs = [[R.choice("cs") if i else "c", R.range(1, 1200)] for i in range(R.range(1, 5))]
+    return {"id": cid, "proto": "http", "sub": R.bits(63), "v6": v6, "c": c, "s": s, "msgs": msgs,
+            "text": R.chance(70), "tcp": {"isn_c": R.bits(32), "isn_s": R.bits(32), "ctl": R.chance(70),
+                                          "cutmode": "record"},
+            "pad_eth": R.chance(50), "t": gen_timing(R.fork("t"), cid)}
+
+
+def gen_udp_noise(R, cid, used, v6=False, port=None, **epkw):
+    """arbitrary UDP: DNS-like, random bytes 1..1500, QUIC-looking garbage"""
+    port = port if port is not None else R.choice([53, 443, 443, 123, R.range(1, 65535)])
+    c, s = gen_endpoints(R.fork("ep"), v6, used, server_port=port, **epkw)
+    dg = []
+    for i in range(R.range(1, 6)):
+        kind = R.weighted([("dns", 20), ("rand", 30), ("quicish", 25), ("short", 15), ("vneg", 5), ("zeros", 5)])
+        if kind == "dns":
+            b = R.bytes(2) + b"\x01\x00\x00\x01\x00\x00\x00\x00\x00\x00" + b"\x07example\x03org\x00\x00\x01\x00\x01"
+            if R.chance(50):
+                b = bytes([b[0] | 0x40]) + b[1:]
+        elif kind == "rand":
+            b = R.bytes(R.weighted([(R.range(1, 8), 30), (R.range(9, 200), 40), (R.range(201, 1500), 30)]))
+        elif kind == "quicish":
+            dcl = R.range(0, 20)
+            scl = R.range(0, 20)
+            first = 0xC0 | (R.below(4) << 4) | R.below(16)
+            ver = R.choice([1, 1, 1, 2, 0x6b3343cf, 0xff00001d, R.bits(32)])
+            b = bytes([first]) + ver.to_bytes(4, "big") + bytes([dcl]) + R.bytes(dcl) + bytes([scl]) + R.bytes(scl)
+            b += R.bytes(R.range(0, 1200))
+            if R.chance(30):
+                b = b[:R.range(1, len(b))]
+        elif kind == "short":
+            b = bytes([0x40 | R.below(64)]) + R.bytes(R.range(0, 30))
+            if R.chance(30):
+                b = bytes([0xC0 | R.below(64)]) + R.bytes(R.range(0, 5))
+        elif kind == "vneg":
+            b = bytes([0x80 | R.below(128)]) + b"\x00\x00\x00\x00" + bytes([8]) + R.bytes(8) + bytes([8]) + R.bytes(8) + \
+                b"\x00\x00\x00\x01" * R.range(0, 3)
+        else:
+            b = bytes([0x40]) + b"\x00" * R.range(0, 40)
+        dg.append([R.choice("cs") if i else "c", b.hex()])
+    return {"id": cid, "proto": "udp", "sub": R.bits(63), "v6": v6, "c": c, "s": s, "dgrams": dg,
+            "pad_eth": R.chance(50), "t": gen_timing(R.fork("t"), cid), "unique_ts": True}
+
+
+def gen_tls_world(R, cfg, nconn=None, with_noise=False):
+    """mixed world of TLS connections (QUIC added by gen_mixed_world), with segmentation and optional network actions"""
+    from .props.base import apply_segmentation
+    used = set()
+    n = nconn if nconn is not None else R.weighted([(1, 40), (2, 35), (3, 25)])
+    policy = R.choice(["concurrent", "concurrent", "staggered", "bursty", "sequential", "reverse"])
+    c2 = dict(cfg)
+    c2["policy"] = policy
+    conns = []
+    for j in range(n):
+        c = gen_tls_conn(R.fork("conn", j), j, c2, used)
+        if R.chance(cfg.get("seg_pct", 70)):
+            apply_segmentation(R.fork("seg", j), c, net=cfg.get("net") if R.chance(cfg.get("net_pct", 0)) else None)
+        conns.append(c)
+    if with_noise:
+        k = len(conns)
+        if R.chance(50):
+            conns.append(gen_http_conn(R.fork("http"), k, used, port=R.choice([443, 44330, 80]), v6=R.chance(30)))
+            k += 1
+        if R.chance(60):
+            conns.append(gen_udp_noise(R.fork("udp"), k, used, v6=R.chance(30)))
+    return {"conns": conns, "tap": gen_tap(R.fork("tap")), "policy": "sequential" if policy == "sequential" else policy}
+
+
+def gen_mixed_world(R, cfg, with_noise=False, nconn=None):
+    """TLS + QUIC mixed world (QUIC share controlled by cfg['quic_pct'])"""
+    spec = gen_tls_world(R, cfg, nconn=nconn, with_noise=with_noise)
+    qp = cfg.get("quic_pct", 0)
+    if qp:
+        from . import quicpeer
+        used = set((c["c"]["ip"], c["c"]["port"], c["s"]["ip"], c["s"]["port"]) for c in spec["conns"])
+        k = max([c["id"] for c in spec["conns"]] + [-1]) + 1
+        Q = R.fork("quic")
+        # replace some TLS connections by QUIC ones / add
+        newc = []
+        for c in spec["conns"]:
+            if c["proto"] == "tls" and Q.chance(qp):
+                newc.append(quicpeer.gen_quic_conn(Q.fork("q", c["id"]), c["id"], cfg.get("quic", {}), used))
+            else:
+                newc.append(c)
+        spec["conns"] = newc
+    return spec
